@@ -23,71 +23,8 @@ EXPLANATION = (
 def is_kpm(e):
     return shared.is_k_plus_m(strip_ext(e))
 
-def run(ctx):
-    P = ctx.program()
-    cg = callgraph.get(P)
 
-    # ---------------- R12a
-    r = ctx.rule('R12a', 'verify_fragment_metadata: valid => idx in [0,k+m), backend id equal, backend version compatible',
-                 'an index k+m or a foreign backend id must be refused; the suite edits fields without re-sealing so never reaches these tests')
-    f = P.fn('liberasurecode_verify_fragment_metadata')
-    paths = oblig.split_symbolic_returns(enumerate_paths(P, f))
-    valid = [p for p in paths if p.ret == '0']
-    invalid = [p for p in paths if p.ret != '0']
-    if not valid:
-        r.fail('valid path exists', func=f.name, sig='no path returns 0', loc=f.mod.src, msg='the predicate can never accept a fragment')
-    isidx = lambda e: bool(re.match(r'^\*arg\d+\.idx$', strip_ext(e)))
-    isbid = lambda e: bool(re.match(r'^\*arg\d+\.backend_id$', strip_ext(e)))
-    isown = lambda e: bool(re.match(r'^\*arg\d+\.common\.id$', strip_ext(e)))
-    for n, p in enumerate(valid):
-        T = p.truths()
-        # (1) index bound
-        cmp_ = find_between(T, isidx, is_kpm)
-        lows = [t for t in T if isidx(t[1]) and const_of(t[2]) is not None and t[0] in ('sge', 'sgt')]
-        inst = f'valid path #{n}: idx < k+m'
-        ok = any(pr == 'ult' and w == 'i32' for pr, a, b, w, i in cmp_)
-        ok_signed = any(pr == 'slt' for pr, a, b, w, i in cmp_) and any((pr == 'sge' and const_of(b) >= 0) or (pr == 'sgt' and const_of(b) >= -1) for pr, a, b, w, i in lows)
-        loc = (cmp_[0][4].loc if cmp_ else f.mod.src)
-        if ok or ok_signed:
-            r.ok(inst, loc=loc, func=f.name, facts={'atoms': [str(x[:4]) for x in cmp_]})
-        elif cmp_:
-            pr = cmp_[0][0]
-            why = {'ule': 'idx <= k+m accepts k+m', 'slt': 'signed comparison accepts idx >= 2^31 (no lower bound)',
-                   'sle': 'signed and non-strict'}.get(pr, f'comparison {pr} is weaker than idx < k+m')
-            r.fail(inst, func=f.name, sig=f'idx bound {pr}.{cmp_[0][3]}', loc=loc, msg=f'index check too weak: {why}')
-        else:
-            other = [t for t in T if isidx(t[1]) or isidx(t[2])]
-            if other:
-                r.undecided(inst, loc=other[0][4].loc, msg=f'index compared in an unrecognised form: {other[0][:4]}')
-            else:
-                r.fail(inst, func=f.name, sig='idx never compared with k+m', loc=f.mod.src, msg='a fragment is accepted without any index range check')
-        # (2) backend id
-        inst = f'valid path #{n}: backend_id == instance id'
-        c2 = find_between(T, isbid, isown)
-        if any(pr == 'eq' for pr, *_ in c2):
-            r.ok(inst, loc=c2[0][4].loc, func=f.name)
-        else:
-            r.fail(inst, func=f.name, sig='backend id not compared' if not c2 else f'backend id compared with {c2[0][0]}',
-                   loc=(c2[0][4].loc if c2 else f.mod.src), msg='a fragment of a different backend is accepted')
-        # (3) compatibility via the instance's own slot
-        inst = f'valid path #{n}: is_compatible_with(backend_version) is true'
-        c3 = [t for t in T if re.match(r'^\(\*\*arg\d+\.common\.ops\.is_compatible_with\)\(\*arg\d+\.backend_version\)$', strip_ext(t[1])) and t[0] == 'ne' and t[2] == '0']
-        if c3:
-            r.ok(inst, loc=c3[0][4].loc, func=f.name)
-        else:
-            r.fail(inst, func=f.name, sig='backend version compatibility not required', loc=f.mod.src,
-                   msg='valid is returned without a true result of ops->is_compatible_with(md->backend_version)')
-    for n, p in enumerate(invalid):
-        c = const_of(p.ret)
-        if c is None or c == 0:
-            r.fail(f'invalid path #{n} returns non-zero', func=f.name, sig=f'invalid path returns {p.ret}', loc=f.mod.src, msg='an invalid verdict is not a non-zero constant')
-        else:
-            r.ok(f'invalid path #{n} returns {c}', func=f.name, trivial=True)
-    r.require_min(4)
-
-    # ---------------- R12b
-    r = ctx.rule('R12b', 'is_invalid_fragment(_metadata): valid only after every check passed with exact tests',
-                 'each dropped or weakened test admits a class of foreign/damaged fragments')
+def rule_validation_pipeline(ctx, P, r):
     g = P.fn('is_invalid_fragment_metadata')
     paths = oblig.split_symbolic_returns(enumerate_paths(P, g))
     valid = [p for p in paths if p.ret == '0']
@@ -164,6 +101,73 @@ def run(ctx):
             r.ok(f'version bound constant {libver} == LIBERASURECODE_VERSION', func=h.name)
         else:
             r.fail('version bound constant', func=h.name, sig=f'version compared with {libver}', loc=h.mod.src, msg='version test does not use LIBERASURECODE_VERSION')
+
+def run(ctx):
+    P = ctx.program()
+    cg = callgraph.get(P)
+
+    # ---------------- R12a
+    r = ctx.rule('R12a', 'verify_fragment_metadata: valid => idx in [0,k+m), backend id equal, backend version compatible',
+                 'an index k+m or a foreign backend id must be refused; the suite edits fields without re-sealing so never reaches these tests')
+    f = P.fn('liberasurecode_verify_fragment_metadata')
+    paths = oblig.split_symbolic_returns(enumerate_paths(P, f))
+    valid = [p for p in paths if p.ret == '0']
+    invalid = [p for p in paths if p.ret != '0']
+    if not valid:
+        r.fail('valid path exists', func=f.name, sig='no path returns 0', loc=f.mod.src, msg='the predicate can never accept a fragment')
+    isidx = lambda e: bool(re.match(r'^\*arg\d+\.idx$', strip_ext(e)))
+    isbid = lambda e: bool(re.match(r'^\*arg\d+\.backend_id$', strip_ext(e)))
+    isown = lambda e: bool(re.match(r'^\*arg\d+\.common\.id$', strip_ext(e)))
+    for n, p in enumerate(valid):
+        T = p.truths()
+        # (1) index bound
+        cmp_ = find_between(T, isidx, is_kpm)
+        lows = [t for t in T if isidx(t[1]) and const_of(t[2]) is not None and t[0] in ('sge', 'sgt')]
+        inst = f'valid path #{n}: idx < k+m'
+        ok = any(pr == 'ult' and w == 'i32' for pr, a, b, w, i in cmp_)
+        ok_signed = any(pr == 'slt' for pr, a, b, w, i in cmp_) and any((pr == 'sge' and const_of(b) >= 0) or (pr == 'sgt' and const_of(b) >= -1) for pr, a, b, w, i in lows)
+        loc = (cmp_[0][4].loc if cmp_ else f.mod.src)
+        if ok or ok_signed:
+            r.ok(inst, loc=loc, func=f.name, facts={'atoms': [str(x[:4]) for x in cmp_]})
+        elif cmp_:
+            pr = cmp_[0][0]
+            why = {'ule': 'idx <= k+m accepts k+m', 'slt': 'signed comparison accepts idx >= 2^31 (no lower bound)',
+                   'sle': 'signed and non-strict'}.get(pr, f'comparison {pr} is weaker than idx < k+m')
+            r.fail(inst, func=f.name, sig=f'idx bound {pr}.{cmp_[0][3]}', loc=loc, msg=f'index check too weak: {why}')
+        else:
+            other = [t for t in T if isidx(t[1]) or isidx(t[2])]
+            if other:
+                r.undecided(inst, loc=other[0][4].loc, msg=f'index compared in an unrecognised form: {other[0][:4]}')
+            else:
+                r.fail(inst, func=f.name, sig='idx never compared with k+m', loc=f.mod.src, msg='a fragment is accepted without any index range check')
+        # (2) backend id
+        inst = f'valid path #{n}: backend_id == instance id'
+        c2 = find_between(T, isbid, isown)
+        if any(pr == 'eq' for pr, *_ in c2):
+            r.ok(inst, loc=c2[0][4].loc, func=f.name)
+        else:
+            r.fail(inst, func=f.name, sig='backend id not compared' if not c2 else f'backend id compared with {c2[0][0]}',
+                   loc=(c2[0][4].loc if c2 else f.mod.src), msg='a fragment of a different backend is accepted')
+        # (3) compatibility via the instance's own slot
+        inst = f'valid path #{n}: is_compatible_with(backend_version) is true'
+        c3 = [t for t in T if re.match(r'^\(\*\*arg\d+\.common\.ops\.is_compatible_with\)\(\*arg\d+\.backend_version\)$', strip_ext(t[1])) and t[0] == 'ne' and t[2] == '0']
+        if c3:
+            r.ok(inst, loc=c3[0][4].loc, func=f.name)
+        else:
+            r.fail(inst, func=f.name, sig='backend version compatibility not required', loc=f.mod.src,
+                   msg='valid is returned without a true result of ops->is_compatible_with(md->backend_version)')
+    for n, p in enumerate(invalid):
+        c = const_of(p.ret)
+        if c is None or c == 0:
+            r.fail(f'invalid path #{n} returns non-zero', func=f.name, sig=f'invalid path returns {p.ret}', loc=f.mod.src, msg='an invalid verdict is not a non-zero constant')
+        else:
+            r.ok(f'invalid path #{n} returns {c}', func=f.name, trivial=True)
+    r.require_min(4)
+
+    # ---------------- R12b
+    r = ctx.rule('R12b', 'is_invalid_fragment(_metadata): valid only after every check passed with exact tests',
+                 'each dropped or weakened test admits a class of foreign/damaged fragments')
+    rule_validation_pipeline(ctx, P, r)
     r.require_min(12)
 
     # ---------------- R12c op tables
